@@ -100,7 +100,7 @@ def judge(ck, sc, res):
                 return
 
 
-def unbounded(ck):
+def unbounded(ck, tier):
     """NoStall for ANY number of data messages: AgentConnInd.tla (counters instead of sequences) as an inductive invariant,
     discharged by Apalache in seconds. A tool failure is a note, never a verdict; a refuted obligation of the repaired protocol
     means the specification's argument is broken (exit 2); the code as found (capacity 0) must be refuted."""
@@ -116,6 +116,12 @@ def unbounded(ck):
         raise lib.Infra("AgentConnInd: the inductive step also holds for an unbuffered notification channel - the invariant is vacuous")
     ck.notes.append("Apalache: with an unbuffered notification channel (the code as found) the inductive step is %s" % (
         "refuted, as it must be" if outcome == "refuted" else "not checked (tool unavailable)"))
+    if tier == "thorough":
+        outcome, detail, wall = apalache.tlaps("AgentConnProof", timeout=600)
+        if outcome == "failed":
+            raise lib.Infra("TLAPS cannot prove AgentConnProof.tla:\n" + detail)
+        ck.notes.append("TLAPS: Spec => [](NoStall /\\ Conserved) in AgentConnProof.tla: %s" % (
+            "all %s obligations proved in %.0f s" % (detail, wall) if outcome == "ok" else "NOT ESTABLISHED (tool unavailable)"))
 
 
 def run(tier, lab):
@@ -200,7 +206,7 @@ def run(tier, lab):
     rb = lib.tlc("MC_AgentConn", timeout=200, constants={"MCCap": "0", "MCRecheck": "FALSE", "MCChunks": "3"}, want_scn=False)
     if rb.violated != "NoStall":
         raise lib.Infra("an unbuffered notification channel does not violate NoStall in AgentConn (got %s)" % rb.violated)
-    unbounded(ck)
+    unbounded(ck, tier)
     for sched in {json.dumps(x["arrivals"]): x["arrivals"] for x in ra.scn}.values():
         msgs, at, gens = [{"m": "hello", "k": 1, "n": 0}], [""], []
         for a in sched:
